@@ -5,7 +5,7 @@ W=/tmp/mut-$S-$P
 git -C /repo worktree remove --force $W 2>/dev/null
 git -C /repo worktree add -q --detach $W HEAD || exit 3
 git -C $W apply /verif/seeded/$S/patch.diff || { echo "patch does not apply"; git -C /repo worktree remove --force $W; exit 3; }
-VERIF_REPO=$W VERIF_SCRATCH=/var/tmp/rv-mut-$S-$P VERIF_EVIDENCE_DIR=/tmp/ev-mut /verif/bin/check $P "$@"
+VERIF_REPO=$W VERIF_SCRATCH=/var/tmp/rv-mut-$S-$P VERIF_EVIDENCE_DIR=/tmp/ev-mut VERIF_REPLAY_DIR=/tmp/ev-mut/replays /verif/bin/check $P "$@"
 rc=$?
 git -C /repo worktree remove --force $W
 rm -rf /var/tmp/rv-mut-$S-$P
